@@ -218,6 +218,127 @@ pub fn run_mf(rep: &mut Report, rng: &mut Rng, thorough: bool, sweep: bool) {
     }
 }
 
+/// adversarial inputs for the BT4 tree (B5, `bt4_tree_matches_valid`): tiny alphabets, long runs, periodic data with a
+/// period near `cyclic_size = dict + 1`, many suffixes sharing a 4-byte prefix
+fn mf_adv_data(r: &mut Rng, kind: u64, dict: usize, len: usize) -> Vec<u8> {
+    match kind % 6 {
+        0 => { let a = r.range(1, 3) as u8; (0..len).map(|_| 97 + (r.below(a as u64 + 1) as u8)).collect() }
+        1 => {
+            let mut out = Vec::with_capacity(len);
+            while out.len() < len {
+                let b = 97 + r.below(2) as u8;
+                let n = r.range(1, 60) as usize;
+                out.extend(std::iter::repeat(b).take(n));
+            }
+            out.truncate(len);
+            out
+        }
+        2 => {
+            // period cyclic_size - 2 ..= cyclic_size + 2 over {a, b}, a few flipped bits
+            let p = (dict as i64 + 1 + r.range(0, 4) as i64 - 2).max(1) as usize;
+            let base: Vec<u8> = (0..p).map(|_| 97 + r.below(2) as u8).collect();
+            let mut out: Vec<u8> = (0..len).map(|k| base[k % p]).collect();
+            for _ in 0..r.below(6) {
+                if !out.is_empty() { let i = r.below(out.len() as u64) as usize; out[i] ^= 1; }
+            }
+            out
+        }
+        3 => {
+            // the same 4-byte prefix again and again, then short random tails over {a, b}
+            let mut out = Vec::with_capacity(len + 16);
+            while out.len() < len {
+                out.extend_from_slice(b"abcd");
+                for _ in 0..r.below(12) { out.push(97 + r.below(2) as u8); }
+            }
+            out.truncate(len);
+            out
+        }
+        4 => {
+            // Fibonacci word with a few foreign symbols
+            let (mut a, mut b) = (vec![97u8], vec![97u8, 98]);
+            while b.len() < len { let mut c = b.clone(); c.extend_from_slice(&a); a = b; b = c; }
+            b.truncate(len);
+            for _ in 0..r.below(4) { if !b.is_empty() { let i = r.below(b.len() as u64) as usize; b[i] = 99; } }
+            b
+        }
+        _ => {
+            // repeated block with varying cut and one of three separators
+            let bl = r.range(4, 40) as usize;
+            let blk: Vec<u8> = (0..bl).map(|_| 97 + r.below(2) as u8).collect();
+            let mut out = Vec::with_capacity(len + 64);
+            while out.len() < len {
+                let n = r.range(3, bl as u64) as usize;
+                out.extend_from_slice(&blk[..n]);
+                out.push(97 + r.below(3) as u8);
+            }
+            out.truncate(len);
+            out
+        }
+    }
+}
+
+/// BT4 on adversarial data and parameters (small dictionaries, `nice_len` up to 273, `depth_limit` up to 1000)
+/// through the hook `mf_trace` against the Lean model, every reported match validated on both sides
+pub fn run_mf_adv(rep: &mut Report, rng: &mut Rng, thorough: bool, sweep: bool) {
+    let n = if thorough { 1500 } else if sweep { 400 } else { 150 };
+    for _ in 0..n {
+        let mut r = rng.fork();
+        let dict: u32 = *r.pick(&[1u32, 2, 3, 4, 7, 8, 9, 16, 17, 33, 64, 255, 256, 4096]);
+        let nice: u32 = *r.pick(&[8u32, 9, 16, 32, 64, 273]);
+        let depth: i32 = *r.pick(&[0i32, 1, 2, 3, 8, 100, 1000]);
+        let normal = r.chance(1, 2);
+        let (eb, ea) = if normal { (4096u32, 4096u32) } else { (1, 272) };
+        let len = *r.pick(&[20usize, 50, 100, 300, 700, 1500, 4000]);
+        let len = if dict == 4096 && r.chance(1, 2) { 3 * 4096 + r.range(0, 500) as usize } else { len };
+        let kind = r.below(6);
+        let data = mf_adv_data(&mut r, kind, dict as usize, len);
+        let style = r.below(3);
+        let mut script: Vec<u32> = Vec::new();
+        let mut covered = 0usize;
+        while covered < data.len() + 2 {
+            script.push(0);
+            covered += 1;
+            if style != 0 && r.chance(2, 5) {
+                let k = *r.pick(&[2u64, 8, 40, 300]);
+                let k = r.range(1, k) as u32;
+                script.push(k);
+                covered += k as usize;
+            }
+        }
+        let trace = hooks::mf_trace(true, dict, eb, ea, nice, 273, depth, &data, &script);
+        let (nf, nm, s) = trace_string(&trace);
+        let mut bad = None;
+        'outer: for (pos, ms) in &trace {
+            let p = *pos as usize;
+            let limit = 273usize.min(data.len().saturating_sub(p));
+            let mut prev = 0u32;
+            for &(l, d) in ms {
+                let (l, d1) = (l as usize, d as i64 + 1);
+                if l < 2 || l > limit || d1 < 1 || d1 as usize > p || d1 as usize > dict as usize || l as u32 <= prev {
+                    bad = Some(format!("match (len {l}, dist {d}) at position {p} is out of range (limit {limit}, dict {dict}, previous len {prev})"));
+                    break 'outer;
+                }
+                if (0..l).any(|k| data[p + k] != data[p + k - d1 as usize]) {
+                    bad = Some(format!("match (len {l}, dist {d}) at position {p} is not a repetition"));
+                    break 'outer;
+                }
+                prev = l as u32;
+            }
+        }
+        let detail = || json!({"match_finder": "bt4", "stratum": "adversarial", "dict": dict, "nice_len": nice, "depth_limit": depth, "mode": if normal { "normal" } else { "fast" }, "data_kind": kind, "data_len": data.len(), "data_fnv": fnv(&data), "script_style": style, "data_hex": if data.len() <= 300 { hex(&data) } else { String::new() }});
+        if let Some(b) = bad {
+            rep.fail("mf-invalid-match:bt4", &b, detail());
+        }
+        rep.count("mf.bt4.adv");
+        let sc = script.iter().map(|x| x.to_string()).collect::<Vec<_>>().join(",");
+        rep.model(
+            format!("mf.trace kind=bt4 dict={dict} nice={nice} depth={} mlmax=273 data={} script={sc} check=1", depth.max(0), hex(&data)),
+            format!("ok {nf} {nm} {} 1", fnv(s.as_bytes())),
+        );
+        rep.case(format!("mfadv:{}:{}:{}:{}", dict_class(dict), nice, depth, kind), !data.is_empty(), || detail());
+    }
+}
+
 /// The whole fast-mode encoder (match finder + parser + range coder) as modelled in `Model/EncFast.lean` against the
 /// real `LZMAWriter::new_no_header(.., false)`: the model must produce the SAME BYTES (request `encfast.parse …
 /// enc=1 bytesonly=1`), for HC4 (the theorem `fast_roundtrip_generated` covers it) and BT4 (model only).
